@@ -67,11 +67,18 @@ func NewRateLimiter(permitsPerSecond int64, options ...Option) *RateLimiter {
 func (l *RateLimiter) Acquire(ctx context.Context, tokens int) (err error) {
 	now := time.Now().UnixNano()
 	last := atomic.LoadInt64(&l.next)
-	permits := float64(now-last)/l.interval - float64(tokens)
-	if permits > l.maxPermits {
-		permits = l.maxPermits
+	for {
+		permits := float64(now-last)/l.interval - float64(tokens)
+		if permits > l.maxPermits {
+			permits = l.maxPermits
+		}
+		// read-modify-write of next must be atomic: concurrent callers that all
+		// read the same value would otherwise all be admitted for one permit.
+		if atomic.CompareAndSwapInt64(&l.next, last, now-int64(permits*l.interval)) {
+			break
+		}
+		last = atomic.LoadInt64(&l.next)
 	}
-	atomic.StoreInt64(&l.next, now-int64(permits*l.interval))
 	if last <= now {
 		return
 	}
